@@ -1230,6 +1230,13 @@ void readin (void)
 
 	yyout = stdout;
 
+	/* Only the default skeleton contains the code that loads (or verifies)
+	 * serialized tables; elsewhere the scanner would be left without any
+	 * tables at all.
+	 */
+	if ((tablesext || tablesverify) && !is_default_backend())
+		flexerror (_("serialized tables (--tables-file, --tables-verify) are only supported by the default back end"));
+
 	if (tablesext)
 		gentables = false;
 
